@@ -282,8 +282,9 @@ Proof.
 Qed.
 
 (** * 5. The macro bodies *)
+Definition else_wrap (k : mkind) : logwrap := match k with MEvent => InTracingLog | MSpan => InIfLog end.
 Lemma body_known k p : valid_prefix k p = true ->
-  lookup_body gen_bodies k (canon_prefix k p) = Some [(InThen, false); (InElse, true)].
+  lookup_body gen_bodies k (canon_prefix k p) = Some [(InThen, NoLog); (InElse, else_wrap k)].
 Proof.
   destruct k; simpl; rewrite ?orb_true_iff, ?String.eqb_eq; intros H;
     repeat (destruct H as [H|H]; [subst p; reflexivity|]); discriminate.
@@ -294,23 +295,30 @@ Proof.
     repeat (destruct H as [H|H]; [subst p; reflexivity|]); discriminate.
 Qed.
 
-Lemma evals_count g :
-  List.length (filter (occurrence_runs g) [(InThen, false); (InElse, true)]) = (if g then 1 else 0)%nat.
-Proof. destruct g; reflexivity. Qed.
+(** How often the value set is built: once in the enabled branch; in the disabled branch only by the log-only code. *)
+Lemma evals_count ls k g :
+  List.length (filter (occurrence_runs ls g) [(InThen, NoLog); (InElse, else_wrap k)])
+  = (if g then 1 else if spec_log_formats ls k then 1 else 0)%nat.
+Proof. destruct ls as [[] [] [] [] []], k, g; reflexivity. Qed.
 
 Lemma concat_entries its : List.concat (map ve_ticks (map spec_entry its)) = List.concat (map item_ticks its).
 Proof. induction its as [|it its IH]; simpl; [reflexivity|]. rewrite IH. reflexivity. Qed.
 
+Lemma ticks_of_vals f :
+  List.concat (map ve_ticks ((match f_fmt f with Some m => [fmt_entry m] | None => [] end) ++ [] ++ map spec_entry (f_items f)))
+  = spec_ticks f.
+Proof. unfold spec_ticks. destruct f as [its tr [m|]]; cbn; rewrite concat_entries; reflexivity. Qed.
+
 (** The core: a field list in the grammar, run through the base arm. *)
-Lemma run_fields k p lvl f c :
+Lemma run_fields ls k p lvl f c :
   valid_prefix k p = true -> forallb item_ok (f_items f) = true ->
   match lookup_body gen_bodies k (canon_prefix k p), fieldset_expand f, valueset_expand f with
   | Some occs, Some names, Some vals =>
       let g := guard c lvl in
-      let evals := List.length (filter (occurrence_runs g) occs) in
+      let evals := List.length (filter (occurrence_runs ls g) occs) in
       let ticks := List.concat (repeat (List.concat (map ve_ticks vals)) evals) in
       if g then
-        if existsb (fun o => match fst o with InThen => negb (snd o) | _ => false end) occs then
+        if existsb (fun o => match o with (InThen, NoLog) => true | _ => false end) occs then
           match pair_up the_callsite 0 names vals with
           | Some entries =>
               match vs_record the_callsite entries with
@@ -323,31 +331,31 @@ Lemma run_fields k p lvl f c :
       else Some (mk_out names None ticks)
   | _, _, _ => None
   end
-  = Some (mk_out (spec_names f) (if guard c lvl then Some (spec_visits f) else None) (if guard c lvl then spec_ticks f else [])).
+  = Some (mk_out (spec_names f) (if guard c lvl then Some (spec_visits f) else None)
+                 (if guard c lvl then spec_ticks f else if spec_log_formats ls k then spec_ticks f else [])).
 Proof.
   intros Hp Hi. rewrite body_known by exact Hp.
   unfold fieldset_expand, valueset_expand. rewrite fieldset_go_spec, valueset_go_spec.
-  cbv zeta. rewrite evals_count. unfold spec_names, spec_visits, spec_ticks.
-  destruct f as [its tr fmt]. cbn [f_items f_trailing f_fmt] in *.
+  cbv zeta. rewrite evals_count, ticks_of_vals. unfold spec_names, spec_visits.
   destruct (guard c lvl).
-  - cbn [existsb fst snd negb orb]. destruct fmt as [m|]; cbn [app].
+  - cbn [existsb orb repeat List.concat]. rewrite app_nil_r.
+    destruct f as [its tr fmt]. cbn [f_items f_trailing f_fmt] in *. destruct fmt as [m|]; cbn [app].
     + cbn [pair_up]. rewrite pair_up_items. cbn [option_map vs_record].
       rewrite vs_record_items by exact Hi.
       cbn [fd_callsite]. rewrite N.eqb_refl, checks_callsite. cbn [negb andb ve_val fmt_entry rv_ty].
       change (route TArguments (mk_rv TArguments PNothing (fm_text m) (fm_text m)))
         with (Some (Some (MDebug, SDbg (fm_text m)))).
-      cbn [fd_name fd_index repeat List.concat map ve_ticks]. rewrite app_nil_r, concat_entries. reflexivity.
-    + rewrite pair_up_items. rewrite vs_record_items by exact Hi.
-      cbn [repeat List.concat]. rewrite app_nil_r, concat_entries. reflexivity.
-  - destruct fmt; reflexivity.
+      reflexivity.
+    + rewrite pair_up_items. rewrite vs_record_items by exact Hi. reflexivity.
+  - destruct (spec_log_formats ls k); cbn [repeat List.concat]; rewrite ?app_nil_r; destruct (f_fmt f); reflexivity.
 Qed.
 
-Lemma run_spec : forall inv c, wf_inv inv = true ->
-  run inv c = Some (spec_outcome inv (guard c (i_level inv))).
+Lemma run_log_spec : forall ls inv c, wf_inv inv = true ->
+  run_log ls inv c = Some (spec_outcome_log ls inv (guard c (i_level inv))).
 Proof.
-  intros [k p lvl br f] c H. unfold wf_inv in H. cbn [i_kind i_prefix i_brace i_fields] in H.
+  intros ls [k p lvl br f] c H. unfold wf_inv in H. cbn [i_kind i_prefix i_brace i_fields] in H.
   apply andb_true_iff in H as [H Hi]. apply andb_true_iff in H as [Hp Hb].
-  unfold run, spec_outcome, desugar_brace. cbn [i_kind i_prefix i_brace i_fields i_level].
+  unfold run_log, spec_outcome_log, desugar_brace. cbn [i_kind i_prefix i_brace i_fields i_level].
   destruct br.
   - (* brace form: events only *)
     destruct k; [|discriminate Hb].
@@ -355,12 +363,33 @@ Proof.
     + rewrite brace_known by exact Hp.
       set (it := IKV message_key SNone (fm_ticks m) (mk_rv TArguments PNothing (fm_text m) (fm_text m))).
       set (f' := mk_fields (it :: f_items f) (match f_items f with [] => true | _ :: _ => f_trailing f end) None).
-      pose proof (run_fields MEvent p lvl f' c Hp) as R.
+      pose proof (run_fields ls MEvent p lvl f' c Hp) as R.
       assert (Hi' : forallb item_ok (f_items f') = true) by (cbn; exact Hi).
       specialize (R Hi'). cbv zeta in R. rewrite R.
       unfold spec_names, spec_visits, spec_ticks. rewrite Ef. reflexivity.
-    + apply (run_fields MEvent p lvl f c Hp Hi).
-  - apply (run_fields k p lvl f c Hp Hi).
+    + apply (run_fields ls MEvent p lvl f c Hp Hi).
+  - apply (run_fields ls k p lvl f c Hp Hi).
+Qed.
+
+Lemma run_spec : forall inv c, wf_inv inv = true ->
+  run inv c = Some (spec_outcome inv (guard c (i_level inv))).
+Proof. intros inv c H. unfold run. rewrite (run_log_spec log_off inv c H). reflexivity. Qed.
+
+(** With `log`: enabled -> exactly once, as without; disabled -> nothing reaches the collector, and the expressions are
+    evaluated (once) exactly when the log-only code formats the record.  Once any dispatcher has been set (and without
+    `log-always`) that never happens. *)
+Lemma lazy_with_log : forall ls inv c, wf_inv inv = true ->
+  exists o, run_log ls inv c = Some o
+    /\ (guard c (i_level inv) = true -> o_ticks o = spec_ticks (i_fields inv) /\ o_delivered o <> None)
+    /\ (guard c (i_level inv) = false -> o_delivered o = None
+         /\ o_ticks o = (if spec_log_formats ls (i_kind inv) then spec_ticks (i_fields inv) else []))
+    /\ (l_mode ls = LogOn -> l_dispatch_ever ls = true -> guard c (i_level inv) = false -> o_ticks o = []).
+Proof.
+  intros ls inv c W. rewrite (run_log_spec ls inv c W). eexists. split; [reflexivity|].
+  unfold spec_outcome_log. split; [|split].
+  - intros ->. simpl. split; [reflexivity|discriminate].
+  - intros ->. simpl. split; reflexivity.
+  - intros M D ->. simpl. unfold spec_log_formats. rewrite M, D. rewrite andb_false_r. reflexivity.
 Qed.
 
 (** * 6. Readable corollaries of the specification functions *)
